@@ -40,6 +40,8 @@ Section Ext.
   Proof. unfold w_group. rewrite w_header_ext, El, !w_linklist_ext. reflexivity. Qed.
   Lemma w_data_array_ext a : w_data_array t v a = w_data_array t v' a.
   Proof. unfold w_data_array. rewrite w_header_ext, !Ea, Ep, El, w_linklist_ext. reflexivity. Qed.
+  Lemma w_data_frame_ext a : w_data_frame t v a = w_data_frame t v' a.
+  Proof. unfold w_data_frame. rewrite w_header_ext, Ep, El. reflexivity. Qed.
   Lemma w_tag_ext a : w_tag t v a = w_tag t v' a.
   Proof.
     unfold w_tag. rewrite w_header_ext, Ep, El, !w_linklist_ext.
@@ -74,6 +76,7 @@ Section Ext.
     rewrite (w_children_ext a s_tags _ (w_tag t v')) by apply w_tag_ext.
     rewrite (w_children_ext a s_multi_tags _ (w_multi_tag t v')) by apply w_multi_tag_ext.
     rewrite (w_children_ext a s_sources _ (w_source t v' walk_fuel)) by apply w_source_ext.
+    rewrite (w_children_ext a s_data_frames _ (w_data_frame t v')) by apply w_data_frame_ext.
     reflexivity.
   Qed.
   Theorem walk_v_ext : walk_v t v = walk_v t v'.
